@@ -120,3 +120,24 @@ Theorem src_format_offset_tie : forall buf arr ep offset mode bs,
   sg_FormatOffset buf arr ep offset mode = OK (ep - Z.of_nat (length bs), aw arr ep bs).
 Proof. exact sg_FormatOffset_tie. Qed.
 Print Assumptions src_format_offset_tie.
+
+From CCTZ Require Import SourcePosix SourceFmtLoop SourceFmtLoopProofs SourceFmtTM SourceFmtTMProofs Source64Proofs.
+(* THE MAIN LOOP OF format() AS CLANG READS IT NOW (SourceFmtLoop.v, regenerated every run: the three cursors over the
+   NUL-terminated format, result.append, the switch on the simple specifiers, the %E / %: look-aheads with their
+   short-circuit reads, the %E#S / %E#f ParseInt, kExp10, the scratch buffer written through the translated
+   Format64/Format02d/FormatOffset; FormatTM(strftime) and ToWeek stay oracles, instantiated with the model's): whenever the
+   hand-written format_impl returns r, the source-derived function returns r - every read of the format and every scratch
+   write in bounds.  Loop-invariant simulation, for every format string without NUL. *)
+Theorem src_format_loop_tie : forall strftime_o al tm fs unix fmt r fuel,
+  to_tm al = OK tm ->
+  format_impl strftime_o fmt al fs unix = OK r ->
+  bytes_ok fmt -> ~ In 0 fmt -> ~ In 0 (al_abbr al) -> 0 <= fs < 10 ^ 15 -> blen fmt < 2 ^ 62 ->
+  (3 * length fmt + 30 <= fuel)%nat ->
+  sl_format (format_tm strftime_o) (fun cs wd => to_week (align64 3 cs) wd) fuel fmt fs
+            (al_cs al) (al_off al) (al_abbr al) tm unix = OK r.
+Proof. exact sl_format_tie. Qed.
+Print Assumptions src_format_loop_tie.
+Theorem src_to_tm_tie : forall al tmr, fields_repr (al_cs al) -> to_tm al = OK tmr ->
+  st_ToTM (al_cs al) (al_off al) (al_dst al) (al_abbr al) = OK tmr.
+Proof. exact st_ToTM_tie. Qed.
+Print Assumptions src_to_tm_tie.
